@@ -4,6 +4,7 @@ import SwcVerif.Props.C16Pair
 import SwcVerif.Props.C16PairLoc
 import SwcVerif.Props.C16Asm
 import SwcVerif.Props.C16AsmGen
+import SwcVerif.Props.C16Gen
 #print axioms C16Asm.machine_eq_sub
 #print axioms C16Asm.assemble_eq
 #print axioms C16Asm.assemble_sorted
@@ -31,6 +32,19 @@ import SwcVerif.Props.C16AsmGen
 #print axioms C16.resample_length_le
 #print axioms C16.linearResample_length_le
 #print axioms C16.isoResample_length_le
+#print axioms RefineResample.linResample_refines
+#print axioms RefineResample.isoResample_refines
+#print axioms RefineResample.convSmooth_refines
+#print axioms RefineResample.interp_eq
+#print axioms RefineResample.linspace0_eq
+#print axioms RefineResample.arange0_eq
+#print axioms RefineResample.cumsumK_cumdist
+#print axioms RefineResample.convolveSame_ones
+#print axioms C16.generated_lin_eq_model
+#print axioms C16.generated_iso_eq_model
+#print axioms C16.generated_smooth_eq_model
+#print axioms C16.generated_iso_step_le
+#print axioms C16.generated_smooth_endpoints_count
 #print axioms C16.pairArgmin_spec
 #print axioms C16.pair_step_inv
 #print axioms C16.pair_exact
